@@ -22,6 +22,33 @@ CHECKS = {
  "C16": dict(tech="TLA+ ordered-map specification (AuxStore.tla): exhaustive TLC BFS on a reduced alphabet, tlc -simulate behaviour generation on the full alphabet, replay on the real table, deviation-collecting trace validation (Trace_AuxStore) of every real call",
              text="operation histories of length 40 over 13 keys x 16 values (every acceptance class of FITS cards, exact-fit and one-too-long values per card kind, quotes, trailing blanks) interleaved with FITS round trips through memory and disk, through C++ and C entry points; every call's outcome and resulting store are judged by the specification.",
              note="the MustReject set is the minimum FITS cannot carry; stricter refusals are allowed; value identity is modulo trailing blanks", ref="5/C16"),
+ "C03": dict(tech="TLA+ decision table of get_evaluator (Dispatch.tla) enumerated by TLC over dimension counts 1..9 x order patterns; every configuration evaluated through all paths in builds with and without PHOTOSPLINE_NO_EVAL_TEMPLATES; Trace_Dispatch requires identical bits",
+             text="TLC enumerates every arm of the dispatch table (Fixed/CoreD/Known/Generic x dimension count) and emits one configuration per state; the driver evaluates at interior, margin, on-knot, top-of-support and random points through member functions, evaluator objects (float/double), call operators and C wrappers; the trace specification demands bit-identical values, bitmask derivatives, gradients (value lane = plain value), arbitrary derivatives and centers per group, and the two builds must agree bit for bit; the selected core is compared with the specification as drift.",
+             note="bit identity is observed on this compiler/flag set (SSE, no FMA); 9-D order 4/5 tables only in the thorough tier", ref="5/C03"),
+ "C06": dict(tech="TLA+ HDU-level model of the documented FITS layout (FitsLayout.tla: WriteT, ReadF, legacy variants) model-checked by TLC; bytes written by the library parsed by an independent codec and judged by Trace_Fits; codec-written files read by the library and judged by ReadF",
+             text="TLC proves ReadF(WriteT(T)) = T and the legacy variants on the model. The library writes random tables (1..9-D, unequal axes, orders 0..5, -0/denormal/max/inf/NaN coefficients, extents, periods, aux keys; memory and disk); an independent FITS codec parses the bytes and Trace_Fits requires the file to be WriteT(T) bit for bit; the codec writes the layout and four legacy/reordered variants, the library reads them and must produce ReadF(F); library write->read must give ==, equal bits, strides, extents, aux and identical evaluation; the six shipped files must keep their projection digests.",
+             note="cfitsio is the library's I/O layer and is trusted as a black box; the independent codec (harness/minifits.h) covers primary + IMAGE extensions only", ref="5/C06"),
+ "C07": dict(tech="TLA+ mutation catalogue (Gen_FitsDamage.tla) enumerated by TLC; every damaged file materialised with the independent codec and read through all reader entry points in forked ASan children; outcomes judged by FitsLayout well-formedness in Trace_Fits",
+             text="every single mutation (header cards, axes, BITPIX, NAXIS, HDU drop/swap/rename/duplicate/resize, NaN/inf/unsorted knots, truncation, byte flips, foreign files) on 1..3-D base files and a seeded sample of ordered pairs; each read by read_fits, read_fits_mem, readsplinefitstable(_mem); required: rejection leaving an empty, reusable object, or a table that is well-formed and survives lookup/evaluation/gradient/comparison/re-serialisation/destruction.",
+             note="memory readers are only given whole-block buffers plus one recorded known finding (cfitsio reads past a truncated memory buffer); byte flips are seeded samples", ref="5/C07"),
+ "C08": dict(tech="TLA+ protocol model of the writer over the recorded file-operation sequence (FitsCrash.tla) model-checked by TLC; crash prefixes replayed into files and single failing operations injected into real writer runs through an LD_PRELOAD stdio interposer; observations judged by Trace_FitsCrash",
+             text="for 3 (quick) / 8 (thorough) catalogue tables from one block to several hundred: the real operation sequence is recorded; every operation boundary and byte prefixes of every write (all byte counts for the smallest table) are materialised and read back (reject or equal); every write/flush/close operation is made to fail with ENOSPC (EIO in thorough) in real runs of write_fits and writesplinefitstable, plus RLIMIT_FSIZE limits; success may be reported only if the file reads back equal.",
+             note="fault classes are those of the property (data transfer and commit operations); a failing fseeko is not injected (cfitsio ignores its status); Python bindings not buildable here", cat="fault_enumeration", ref="5/C08"),
+ "C13": dict(tech="TLA+ argument-class model of fit (FitArgs.tla): TLC enumerates all combinations with <= 1 (quick) / <= 2 (thorough) inconsistent classes and their permitted outcomes; each instantiated and executed in forked ASan children; Trace_FitArgs judges",
+             text="12 arguments x their valid/invalid classes in 1..3 dimensions; every combination called on an empty table, on a populated table and through splinetable_glamfit; required: complete / reject as the specification permits, never a crash or sanitizer report, table unchanged after a rejection, non-zero C status exactly on rejection.",
+             note="one concrete instance per class combination", ref="5/C13"),
+ "C15": dict(tech="TLA+ definition of dimension permutation (Table.tla) model-checked against the exact tensor-product evaluation (MC_Permute); every permutation of 1..5-D real tables (sampled 6-D) logged before/after and judged field by field by Trace_Table",
+             text="TLC: permuted table well-formed, inverse restores it, represented function unchanged at permuted points (exact rationals, <= 3-D), non-permutations refused. Real tables with pairwise different axis lengths, orders, extents, periods: every permutation and its inverse through C++ and C entry points, six malformed arguments per dimension count; order, knots, naxes, strides, extents, periods and the relocated coefficient array must equal Table!PermuteOp exactly; values compared numerically at permuted points.",
+             note="coefficients are small integers so that relocation is checked exactly", ref="5/C15"),
+ "C18": dict(tech="TLA+ handle state machine and contract of the C interface (CApi.tla): TLC BFS + simulated call sequences executed against a C++ twin per handle under ASan/LSan; Trace_CApi judges every call",
+             text="24 directed sequences (every function x 4 argument classes on each valid file, failing reads, bad fits) and TLC-simulated sequences of 30 calls over 3 handles; per call: C status vs twin outcome, bit-identical values/tables, no exception through the C boundary; per sequence: LeakSanitizer after all handles are freed.",
+             note="the twin mirrors readsplinefitstable's replace-on-read semantics", ref="5/C18"),
+ "C19": dict(tech="TLA+ size model of load+convolve (Memory.tla: AllocTrace, Peak, Estimate) model-checked by TLC (Peak <= Estimate); real files measured with a byte-counting allocator and judged by Trace_Memory",
+             text="TLC checks Peak <= Estimate for all small file shapes (<= 3-D, orders {0,2,5}, up to 50 aux keys, 1..8 kernel knots, every dimension). The driver loads real files (1..6-D, 0..50 aux keys of all lengths) with a counting allocator, with no convolution or 2..8 kernel knots in a random dimension; the measured peak must not exceed estimateMemory; the recorded allocation sequence and the formula are compared with the model as drift.",
+             note="object size (sizeof(splinetable)) is taken from the build", ref="5/C19"),
+ "C20": dict(tech="TLA+ life-cycle contract (Lifecycle.tla: Bytes, Judge) and coarse object machine (Gen_Lifecycle.tla: BFS + simulation) driving real splinetable<CountingAlloc> objects with injected allocation failures and failing reads; Trace_Lifecycle judges every call",
+             text="single-fault sweeps (every position 0..21 of an injected allocation failure in read, constructor, read_mem, convolve, fit, write_key; six kinds of invalid file) and TLC-simulated histories of 25 operations over 3 objects; after every call: failed operation left the object unchanged or empty, populated tables never overwritten by read, moved-from empty, live bytes of the object's allocator ledger equal Bytes(state), no double free / wrong-size deallocation, nothing live after destruction; forked child per history under ASan+LSan.",
+             note="allocation scheme is transcribed in Lifecycle!Bytes; one recorded known finding (cfitsio over-read on truncated memory buffers)", ref="5/C20"),
 }
 NOT_YET = {}
 def main():
